@@ -83,4 +83,14 @@ CHECKS = {
         "note": "Differential oracle: fresh construction at the same pose (whose own correctness is C03/C04/C01).",
         "technique": "exhaustive enumeration of update/query histories up to depth 3 on the real code with a fresh-object differential oracle",
     },
+    "C07": {
+        "text": ("Overlapping scenes (coincident/offset anchors, deep, identical, supporting planes interpenetrating by 2%/20%/50% of the "
+                 "size along lattice and generic directions) for all 100 ordered type pairs: deviation bound 2 for the 9 polytope "
+                 "pairs, 1 otherwise; gjk.gjk's simplex is handed to epa in all 24 row permutations (<=1 deviation) or one even and "
+                 "one odd permutation. Polytope pairs are judged exactly by exhaustive SAT-axis enumeration (|mtv| = depth, residual "
+                 "overlap/gap after translation, both 1e-6*L, success required); smooth pairs by sound one-sided bounds."),
+        "design_ref": "DESIGN.md 5 C07",
+        "note": "Only well-formed hand-overs are judged: all four simplex rows must be support points gjk really evaluated and the origin must be strictly inside (gjk returns uninitialised rows otherwise). KF-C07-epa-capacity-icosphere is matched by class.",
+        "technique": "bounded-exhaustive enumeration of overlapping scenes x simplex windings on the real gjk+epa vs exhaustive SAT-axis reference",
+    },
 }
